@@ -467,3 +467,272 @@ class E6Text(Engine):
 
     def sample_view(self, case: dict):
         return {"script": case["script"][len(HEAD):], "world": case["world"]}
+
+
+# ====================================================================== C18
+
+
+class E6Anim(Engine):
+    name = "e6-lcd-anim"
+    property_id = "C18"
+    components_real = [
+        "transpile.parser (LCDTick injection) + emitter (start/tick templates of scroll, blink, typewriter, bounce) compiled natively",
+        "Reduino.Displays.LCD.animate/tick under CPython",
+    ]
+    components_stub = ["LiquidCrystal(_I2C) mock cell matrix", "millis() (virtual clock; the loop scheduler decides when each pass starts)"]
+    assumptions = [
+        "the rate limit is measured in millis() units, as the statement says",
+        "termination bound for non-looping animations: 4*(len(text)+cols)+8 steps (deliberately loose, linear)",
+    ]
+    rule = (
+        "1-3 animations (all four styles, texts from empty to longer than the row, loop on/off, speed 0-500 ms) on "
+        "distinct rows of one display, started in setup; the main loop has no LCD statement and at most one sleep; "
+        "tick schedules: on time, early (zero-gap passes), late, clock jumps, boot at 0 or later; board monitors: no "
+        "delay besides the user's sleep, ticks per pass non-increasing and >= looping animations, every frame covers "
+        "exactly its row, >= speed_ms between steps once millis() >= 1, bounded termination / liveness; the host "
+        "LCD.tick is driven with the same timestamps and checked for the same invariants; distinct = digest of the "
+        "per-pass step pattern"
+    )
+
+    def setup(self) -> None:
+        from dst.board import build
+        from dst.host import executor
+
+        build.ensure_runtime("plain")
+        executor.install()
+
+    def generate(self, rng, tier: str, avoid) -> dict:
+        r = rng
+        cols = r.choice([1, 2, 8, 16, 16, 20, r.randint(1, 40)])
+        rows = r.choice([1, 2, 2, 4])
+        i2c = r.random() < 0.5
+        n_anim = r.randint(1, min(3, rows))
+        anim_rows = r.sample(range(rows), n_anim)
+        anims = []
+        for row in anim_rows:
+            n = r.choice([0, 1, max(0, cols - 1), cols, cols + 1, cols + 7, r.randint(0, 45)])
+            text = "".join(r.choice(TEXT_ALPHABET.replace('"', "")) for _ in range(n))
+            anims.append({
+                "style": r.choice(["scroll", "blink", "typewriter", "bounce"]),
+                "row": row,
+                "text": text,
+                "speed_ms": r.choice([0, 1, 50, 200, 200, 500, r.randint(0, 500)]),
+                "loop": r.random() < 0.5,
+                "kw": r.random() < 0.5,
+            })
+        longest = max(len(a["text"]) for a in anims)
+        bound = 4 * (longest + cols) + 8
+        schedule = r.choice(["on_time", "on_time", "early", "late", "mixed", "jump"])
+        horizon = min(400, bound + r.choice([6, 20, 40])) if schedule == "on_time" else r.choice([10, 40, 120])
+        max_speed = max(a["speed_ms"] for a in anims)
+        gaps = []
+        for _ in range(horizon):
+            if schedule == "on_time":
+                gaps.append((max_speed + r.choice([0, 0, 1, 7])) * 1000)
+            elif schedule == "early":
+                gaps.append(r.choice([0, 0, 300, max_speed * 250]))
+            elif schedule == "late":
+                gaps.append(max_speed * 1000 * r.choice([2, 5, 11]) + 999)
+            elif schedule == "jump":
+                gaps.append(r.choice([0, max_speed * 1000, 3600 * 1000 * 1000]))
+            else:
+                gaps.append(r.choice([0, 500, max_speed * 1000, max_speed * 1000 + 1000, max_speed * 3000]))
+        sleep_ms = r.choice([None, None, 0, 3, 40])
+        boot = r.choice([0, 0, 1000, 999, 250000])
+        if i2c:
+            decl = f"lcd = LCD(i2c_addr=0x27, cols={cols}, rows={rows})"
+        else:
+            decl = f"lcd = LCD(rs=12, en=11, d4=5, d5=4, d6=3, d7=2, cols={cols}, rows={rows})"
+        lines = [decl]
+        for a in anims:
+            text = '"' + a["text"].replace("\\", "\\\\") + '"'
+            loop = "True" if a["loop"] else "False"
+            if a["kw"]:
+                lines.append(f'lcd.animate("{a["style"]}", {a["row"]}, {text}, speed_ms={a["speed_ms"]}, loop={loop})')
+            else:
+                lines.append(f'lcd.animate(style="{a["style"]}", row={a["row"]}, text={text}, loop={loop}, speed_ms={a["speed_ms"]})')
+        lines.append("while True:")
+        if sleep_ms is not None:
+            lines.append(f"    sleep({sleep_ms})")
+        lines.append('    mon.write("T")')
+        return {
+            "script": HEAD + "\n".join(lines) + "\n",
+            "world": {"passes": horizon, "gaps": gaps, "boot_us": boot, "dump_lcd": True},
+            "cols": cols, "rows": rows, "anims": anims, "schedule": schedule, "sleep_ms": sleep_ms, "bound": bound,
+        }
+
+    def execute(self, case: dict) -> Outcome:
+        from dst.board import build
+        from dst.engines.e1_diff import _first_error, transpile
+
+        try:
+            cpp = transpile(case["script"])
+        except (ValueError, SyntaxError) as exc:
+            return Outcome("rejected", message=str(exc)[:200], probes={"rejected": 1})
+        binary = None
+        try:
+            try:
+                binary = build.build_sketch(cpp)
+            except build.BuildError as exc:
+                return Outcome("violation", cls="build", message="firmware does not build: " + _first_error(exc.stderr))
+            run = build.run_sketch(binary, case["world"])
+        finally:
+            build.discard(binary)
+        tr = parse_board_log(run.log, run.exit_code, run.stderr)
+        if tr.status != "ok":
+            return Outcome("violation", cls=f"status/{tr.status}", message=tr.detail[:300])
+        msg = self.judge_board(case, tr)
+        if msg:
+            return Outcome("violation", cls="board/" + msg[0], message=msg[1][:400])
+        pattern = msg_pattern = self._step_pattern(case, tr)
+        msg = self.judge_host(case)
+        if msg:
+            return Outcome("violation", cls="host/" + msg[0], message=msg[1][:400])
+        w = case["world"]
+        faults = {"boot_at_zero" if not w.get("boot_us") else "boot_offset": 1}
+        faults["zero_gap_pass"] = sum(1 for g in w["gaps"] if g == 0)
+        faults["late_pass"] = sum(1 for g in w["gaps"] if g >= 2000 * max(1, max(a["speed_ms"] for a in case["anims"])))
+        faults["clock_jump"] = sum(1 for g in w["gaps"] if g >= 3600 * 1000 * 1000)
+        return Outcome("ok", digest=sha(repr(pattern))[:16], nontrivial=any(any(p) for p in pattern), sim_ms=tr.end_ms, faults=faults,
+                       probes={f"style_{a['style']}": 1 for a in case["anims"]} | {f"schedule_{case['schedule']}": 1})
+
+    @staticmethod
+    def _passes(tr):
+        by_pass: Dict[int, List[Tuple[float, str, str]]] = {}
+        for t, phase, kind, rest in tr.raw:
+            if phase >= 0:
+                by_pass.setdefault(phase, []).append((t, kind, rest))
+        return by_pass
+
+    def _step_pattern(self, case, tr):
+        by_pass = self._passes(tr)
+        out = []
+        for k in sorted(by_pass):
+            rows = set()
+            for _t, kind, rest in by_pass[k]:
+                if kind == "LCD" and " W " in " " + rest:
+                    rows.add(int(rest.split()[3]))
+            out.append(tuple(sorted(rows)))
+        return out
+
+    def judge_board(self, case: dict, tr) -> Optional[Tuple[str, str]]:
+        cols = case["cols"]
+        anims = case["anims"]
+        by_row = {a["row"]: a for a in anims}
+        by_pass = self._passes(tr)
+        passes = case["world"]["passes"]
+        oob = [r for _t, _p, k, r in tr.raw if k == "OOB"]
+        if oob:
+            return ("off-display", f"cell outside the display addressed: {oob[0]}")
+        prev_ticks = None
+        steps: Dict[int, List[Tuple[int, int]]] = {a["row"]: [] for a in anims}  # row -> [(pass, millis)]
+        n_loop = sum(1 for a in anims if a["loop"])
+        for k in range(passes):
+            evs = by_pass.get(k, [])
+            dly = [int(r) for _t, kind, r in evs if kind == "DLY"]
+            want = [] if case["sleep_ms"] is None else [case["sleep_ms"]]
+            if dly != want:
+                return ("blocks", f"pass {k}: delay calls {dly}, the script only sleeps {want}")
+            millis = [int(r) for _t, kind, r in evs if kind == "MILLIS"]
+            if len(millis) > len(anims):
+                return ("tick-count", f"pass {k}: {len(millis)} ticks for {len(anims)} animations")
+            if len(millis) < n_loop:
+                return ("tick-count", f"pass {k}: {len(millis)} ticks although {n_loop} looping animations are active")
+            if prev_ticks is not None and len(millis) > prev_ticks:
+                return ("tick-count", f"pass {k}: ticks went up from {prev_ticks} to {len(millis)}")
+            prev_ticks = len(millis)
+            first_ser = next((i for i, (_t, kind, _r) in enumerate(evs) if kind in ("SER", "DLY")), len(evs))
+            written: Dict[int, set] = {}
+            for i, (_t, kind, rest) in enumerate(evs):
+                if kind == "LCD" and " W " in " " + rest:
+                    f = rest.split()
+                    c, rw = int(f[2]), int(f[3])
+                    if i > first_ser:
+                        return ("tick-order", f"pass {k}: animation writes after user code started")
+                    if rw not in by_row:
+                        return ("row-confinement", f"pass {k}: write in row {rw}, which has no animation")
+                    if not 0 <= c < cols:
+                        return ("row-confinement", f"pass {k}: write at column {c} of a {cols}-column display")
+                    written.setdefault(rw, set()).add(c)
+            now_ms = millis[0] if millis else None
+            for rw, cset in written.items():
+                if cset != set(range(cols)):
+                    return ("frame-width", f"pass {k}: frame in row {rw} covers columns {sorted(cset)[:5]}.. of {cols}")
+                steps[rw].append((k, now_ms if now_ms is not None else -1))
+        for a in anims:
+            st = steps[a["row"]]
+            sp = a["speed_ms"]
+            for (k1, m1), (k2, m2) in zip(st, st[1:]):
+                if sp > 0 and m1 >= 1 and m2 - m1 < sp:
+                    return ("rate-limit", f"{a['style']} row {a['row']}: steps at millis {m1} (pass {k1}) and {m2} (pass {k2}) are closer than speed_ms={sp}")
+            if not a["loop"] and len(st) > case["bound"]:
+                return ("termination", f"non-looping {a['style']} made {len(st)} steps, bound {case['bound']}")
+            if case["schedule"] == "on_time" and passes >= case["bound"] + 2:
+                last = {k for k, _m in st}
+                if not a["loop"] and (passes - 1) in last:
+                    return ("termination", f"non-looping {a['style']} ({len(a['text'])} chars, {cols} cols) still stepping at pass {passes - 1}")
+                if a["loop"] and not {passes - 1, passes - 2} <= last:
+                    return ("liveness", f"looping {a['style']} ({len(a['text'])} chars, {cols} cols, speed {sp}) stopped stepping: last steps {sorted(last)[-3:]} of {passes} passes")
+        return None
+
+    def judge_host(self, case: dict) -> Optional[Tuple[str, str]]:
+        from Reduino.Displays.LCD import LCD
+
+        cols, rows = case["cols"], case["rows"]
+        lcd = LCD(i2c_addr=0x27, cols=cols, rows=rows)
+        for r in range(rows):
+            lcd.line(r, f"row{r}"[:cols])
+        untouched = {r: lcd.buffer[r] for r in range(rows) if r not in {a["row"] for a in case["anims"]}}
+        for a in case["anims"]:
+            lcd.animate(a["style"], a["row"], a["text"], speed_ms=a["speed_ms"], loop=a["loop"])
+        states = list(lcd.animations.values())
+        t_us = case["world"].get("boot_us", 0)
+        last_step = {id(s): None for s in states}
+        n_steps = {id(s): 0 for s in states}
+        for k, gap in enumerate(case["world"]["gaps"]):
+            t_us += gap
+            now = max(1, t_us // 1000)  # the statement quantifies over positive timestamps
+            before = {id(s): (s.last_tick, s.active) for s in states}
+            try:
+                lcd.tick(now)
+            except Exception as exc:
+                return ("tick-raises", f"LCD.tick({now}) raised {type(exc).__name__}: {exc}")
+            if len(lcd.buffer) != rows or any(len(row) != cols for row in lcd.buffer):
+                return ("frame-width", f"buffer rows {[len(r) for r in lcd.buffer]} after tick {k}, display is {cols}x{rows}")
+            for r, text in untouched.items():
+                if lcd.buffer[r] != text:
+                    return ("row-confinement", f"row {r} without animation changed to {lcd.buffer[r]!r}")
+            for s, a in zip(states, case["anims"]):
+                stepped = before[id(s)][1] and s.last_tick == now and (before[id(s)][0] != now or before[id(s)][0] == 0)
+                if stepped:
+                    prev = last_step[id(s)]
+                    if prev is not None and a["speed_ms"] > 0 and prev >= 1 and now - prev < a["speed_ms"] and now != prev:
+                        return ("rate-limit", f"host {a['style']}: steps at {prev} and {now} closer than speed_ms={a['speed_ms']}")
+                    last_step[id(s)] = now
+                    n_steps[id(s)] += 1
+                if a["loop"] and not s.active:
+                    return ("liveness", f"host looping {a['style']} became inactive at tick {k}")
+        if case["schedule"] == "on_time" and len(case["world"]["gaps"]) >= case["bound"] + 2:
+            for s, a in zip(states, case["anims"]):
+                if not a["loop"] and s.active:
+                    return ("termination", f"host non-looping {a['style']} ({len(a['text'])} chars, {cols} cols) still active after {len(case['world']['gaps'])} on-time ticks")
+        return None
+
+    def shrink_candidates(self, case: dict):
+        if len(case["anims"]) > 1:
+            for i in range(len(case["anims"])):
+                c = copy.deepcopy(case)
+                keep = c["anims"][i]
+                c["anims"] = [keep]
+                lines = [l for l in c["script"].splitlines() if not l.startswith("lcd.animate(") or f", {keep['row']}, " in l or f"row={keep['row']}," in l]
+                c["script"] = "\n".join(lines) + "\n"
+                yield c
+        w = case["world"]
+        if w["passes"] > 4 and case["schedule"] != "on_time":
+            c = copy.deepcopy(case)
+            c["world"]["passes"] = w["passes"] // 2
+            c["world"]["gaps"] = w["gaps"][: w["passes"] // 2]
+            yield c
+
+    def sample_view(self, case: dict):
+        return {"script": case["script"][len(HEAD):], "schedule": case["schedule"], "passes": case["world"]["passes"], "gaps_head": case["world"]["gaps"][:8]}
